@@ -134,6 +134,35 @@ Lemma source_spec : forall user traj,
   (user = None -> forall m ms, traj = Packed (m :: ms) -> source_matrix user traj = Some m).
 Proof. intros user traj; repeat split; intros; subst; reflexivity. Qed.
 
+(* ---- all trajectories ---- *)
+Lemma map_repeat_ev : forall {A B} (f : A -> B) x n, map f (repeat x n) = repeat (f x) n.
+Proof. intros A B f x n; induction n; simpl; [reflexivity | now rewrite IHn]. Qed.
+
+Lemma sequences_at_own_trajectory : forall user trajs c targets slm_end t,
+  sequences_at user trajs c targets slm_end t =
+    map (fun tr => interaction_at user tr c targets slm_end t) (expand_trajs trajs) /\
+  length (sequences_at user trajs c targets slm_end t) = length (expand_trajs trajs) /\
+  forall k tr, nth_error (expand_trajs trajs) k = Some tr ->
+    nth_error (sequences_at user trajs c targets slm_end t) k = Some (interaction_at user tr c targets slm_end t).
+Proof.
+  intros user trajs c targets slm_end t.
+  assert (H : sequences_at user trajs c targets slm_end t =
+              map (fun tr => interaction_at user tr c targets slm_end t) (expand_trajs trajs)).
+  { unfold sequences_at, expand_trajs. induction trajs as [|[m r] rest IH]; simpl; [reflexivity|].
+    rewrite map_app, map_repeat_ev, IH. reflexivity. }
+  split; [exact H|]. split.
+  - rewrite H. apply map_length.
+  - intros k tr Hk. rewrite H.
+    exact (map_nth_error (fun tr0 => interaction_at user tr0 c targets slm_end t) k (expand_trajs trajs) Hk).
+Qed.
+
+Lemma expand_trajs_length : forall trajs,
+  length (expand_trajs trajs) = fold_right (fun tr acc => (snd tr + acc)%nat) 0%nat trajs.
+Proof.
+  induction trajs as [|[m r] rest IH]; simpl; [reflexivity|].
+  unfold expand_trajs in *. simpl. rewrite app_length, repeat_length, IH. reflexivity.
+Qed.
+
 (* ---- query times ---- *)
 Definition sorted_times (times : list Z) : Prop :=
   forall k, (S k < length times)%nat -> tnth times k <= tnth times (S k).
